@@ -648,8 +648,10 @@ class Collector(object):
         self.groups = {}
 
     def add(self, cfg, missing, obs, n, source, impl_bound=None, exc=None):
-        fc = finding_class(cfg, missing, obs, impl_bound) if obs and obs.get('coords') else \
-            '%s-%s' % (cfg['cls'].lower(), '+'.join(sorted(missing)))
+        if obs and obs.get('coords') and not sorted(missing)[0].startswith('must-'):
+            fc = finding_class(cfg, missing, obs, impl_bound)
+        else:
+            fc = '%s-%s' % (cfg['cls'].lower(), '+'.join(sorted(missing)))
         key = (cfg['cls'], tuple(sorted(missing)), fc)
         size = len(json.dumps(cfg, sort_keys=True))
         g = self.groups.setdefault(key, {'configs': 0, 'draws': 0, 'best': None, 'size': None, 'sources': set()})
@@ -700,8 +702,8 @@ def interleave(items, rng):
 def run(ctx):
     from engine.main import Machinery
     quick = ctx.quick
-    extra = {'seed': ctx.seed, 'n_scalar': 400 if quick else 4000, 'n_array': 100 if quick else 1000,
-             'n_func': 5 if quick else 20, 'n_points': 40 if quick else 500, 'n_cross': 2, 'n_steps': 2 if quick else 6,
+    extra = {'seed': ctx.seed, 'n_scalar': 400 if quick else 4000, 'n_array': 100 if quick else 800,
+             'n_func': 5 if quick else 15, 'n_points': 40 if quick else 400, 'n_cross': 2, 'n_steps': 2 if quick else 6,
              'n_trace': 5 if quick else 8}
     coll = Collector()
 
